@@ -24,7 +24,7 @@ def gen_cases(tier, seed, salt):
         st = structs[int(sub.integers(len(structs)))]
         spec = S.gen_spec(sub, structure=st, fams=["weibull", "lognormal", "lnnf", "expweib", "gengamma", "normal"], allow_hostile=True)
         alpha = float(10 ** sub.uniform(-6, math.log10(0.3)))
-        mode = str(sub.choice(["explicit", "explicit", "explicit", "too-small", "default-limits" if not three else "explicit", "bimodal" if not three else "explicit", "near-miss" if not three else "too-small", "near-miss" if not three else "explicit", "modes-side-by-side" if not three else "explicit", "four-modes" if not three else "explicit", "tiny-second-region" if not three else "explicit", "default-limits-mass-below-zero" if not three else "explicit", "warning-sequence" if not three else "too-small"]))
+        mode = str(sub.choice(["explicit", "explicit", "explicit", "too-small", "default-limits" if not three else "explicit", "bimodal" if not three else "explicit", "near-miss" if not three else "too-small", "near-miss" if not three else "explicit", "modes-side-by-side" if not three else "explicit", "four-modes" if not three else "explicit", "tiny-second-region" if not three else "explicit", "default-limits-mass-below-zero" if not three else "explicit", "warning-sequence" if not three else "too-small", "oblique-ridge" if not three else "explicit"]))
         if mode == "near-miss":
             # the grid misses (or exceeds) 1-alpha by a small multiple of alpha: the warning rule at its edge
             alpha = float(10 ** sub.uniform(-6, -2.5))
@@ -126,6 +126,11 @@ def run(case, ctx, which):
         alpha = float(rng.uniform(0.005, 0.1))
     if case["mode"] == "warning-sequence":
         return run_sequence(case, ctx, which, rng)
+    if case["mode"] == "oblique-ridge":
+        # a narrow diagonal ridge resolved by about one cell: region cells that touch only through their corners
+        sg = float(rng.uniform(0.12, 0.3))
+        spec = {"dims": [{"fam": "normal", "params": {"mu": 5.0, "sigma": float(rng.uniform(1.2, 2.0))}}, {"fam": "normal", "cond": 0, "params": {"mu": {"shape": "linear2", "coef": [float(rng.uniform(0.0, 0.5)), float(rng.uniform(0.7, 1.4))]}, "sigma": sg}}]}
+        alpha = float(rng.uniform(0.02, 0.3))
     if case["mode"] == "tiny-second-region":
         # unequal modes; alpha is chosen (second pass, below) so that the weaker mode contributes exactly 1, 2 or 3 cells
         spec = build_multimodal(rng, "two")
@@ -167,7 +172,11 @@ def run(case, ctx, which):
         kw["deltas"] = [d0, float(hi1) / n1]
         ctx.cls("shortfall/alpha", u)
     elif case["mode"] not in ("default-limits", "default-limits-mass-below-zero"):
-        if case["mode"] in ("modes-side-by-side", "four-modes", "tiny-second-region"):
+        if case["mode"] == "oblique-ridge":
+            lims = [(-2.0, 12.0), (-3.0, 18.0)]
+            sg_ = spec["dims"][1]["params"]["sigma"]
+            case = {**case, "ncell": [int(14.0 / (sg_ * float(rng.uniform(0.8, 1.6)))), int(21.0 / (sg_ * float(rng.uniform(0.8, 1.6))))], "delta_form": "list"}
+        elif case["mode"] in ("modes-side-by-side", "four-modes", "tiny-second-region"):
             lims = [(-3.0, 14.0), (-3.0, 17.0)]
         elif case["mode"] == "bimodal":
             lims = [(-6.0, 16.0), (-2.0, 20.0)]
